@@ -46,8 +46,8 @@ M = [
  # ---- C08 structure
  ("remove-forgets-usages", "src/egraph/add.rs", "        for ref_id in sh.ids() {\n            let usages = &mut self.classes.get_mut(&ref_id).unwrap().usages;\n            usages.remove(&sh);\n        }", "", ["C08", "C02"]),
  ("move-to-keeps-nodes", "src/egraph/union.rs", "            self.raw_remove_from_class(from.id, sh.clone());\n            // if `sh` contains", "            // if `sh` contains", ["C08"]),
- ("shrink-leaves-group", "src/egraph/rebuild.rs", "        c.group = Group::new(&identity, generators);\n\n        self.touched_class(from.id, PendingType::Full);", "        let _ = (identity, generators);\n\n        self.touched_class(from.id, PendingType::Full);", ["C08", "C01", "C10"]),
- ("add-syn-no-rebuild", "src/egraph/add.rs", "            self.handle_congruence(pc);\n            // the congruence union above leaves pending work; without this the e-graph stays un-normalized until the next union.\n            self.rebuild();", "            self.handle_congruence(pc);", ["C08"]),
+ ("shrink-keeps-old-generators", "src/egraph/rebuild.rs", "            let perm = proven_perm\n                .elem\n                .into_iter()\n                .filter(|(x, _)| cap.contains(x))\n                .collect();", "            let perm: Perm = proven_perm\n                .elem\n                .into_iter()\n                .filter(|(x, y)| cap.contains(x) || x == y)\n                .collect();", ["C08", "C01", "C10"]),
+ ("add-syn-no-rebuild (explanations only)", "src/egraph/add.rs", "            self.handle_congruence(pc);\n            // the congruence union above leaves pending work; without this the e-graph stays un-normalized until the next union.\n            self.rebuild();", "            self.handle_congruence(pc);", ["C08"]),
  # ---- C09
  ("lookup-wrong-bijection", "src/egraph/add.rs", "        let out = cn_bij.inverse().compose(&n_bij);", "        let out = cn_bij.inverse().compose_partial(&n_bij.inverse().inverse());\n        let out = if out.len() >= 2 { let ks = out.keys_vec(); let vs = out.values_vec(); let mut o = SlotMap::new(); for (i, k) in ks.iter().enumerate() { o.insert(*k, vs[(i + 1) % vs.len()]); } o } else { out };", ["C09", "C01", "C08"]),
  ("add-never-looks-up", "src/egraph/add.rs", "        if let Some(x) = self.lookup_internal(&t) {\n            return x;\n        }\n\n        // TODO this code", "        if t.0.applied_id_occurrences().len() > 1 {\n            if let Some(x) = self.lookup_internal(&t) {\n                return x;\n            }\n        }\n\n        // TODO this code", ["C09", "C08"]),
@@ -60,13 +60,14 @@ M = [
  ("class-slots-by-name-order", "src/egraph/add.rs", "        for s in syn_enode.public_slot_occurrences() {\n            if !old_to_fresh.contains_key(s) {", "        for s in syn_enode.slots() {\n            if !old_to_fresh.contains_key(s) {", ["C11"]),
  ("right-order-by-id", "src/egraph/union.rs", "                // prefer bigger e-classes, because then we need to update less.\n                size(l) <= size(r)", "                // prefer bigger e-classes, because then we need to update less.\n                size(l) < size(r)", []),
  # ---- C13
- ("progress-counts-dead-slots", "src/rewrite/mod.rs", "            sum_of_slots: ids.iter().map(|x| self.slots(*x).len()).sum(),", "            sum_of_slots: self.classes.values().map(|c| c.slots.len()).sum(),", ["C13", "C15", "C02"]),
+ ("progress-counts-dead-slots", "src/rewrite/mod.rs", "            sum_of_slots: ids.iter().map(|x| self.slots(*x).len()).sum(),", "            sum_of_slots: self.classes.keys().map(|x| self.slots(*x).len()).sum(),", ["C13", "C15", "C02"]),
  ("find-stale-compression", "src/egraph/find.rs", "        map[i.0] = new.clone();\n        new", "        map[i.0] = entry_to_leader.clone();\n        new", ["C13", "C08", "C01"]),
  # ---- C14
  ("analysis-no-touch", "src/egraph/rebuild.rs", "        if new != old {\n            self.modify_queue.push(i);\n            self.touched_class(i, PendingType::OnlyAnalysis);\n        }\n    }\n\n    fn handle_shrink", "        if new != old {\n            self.modify_queue.push(i);\n        }\n    }\n\n    fn handle_shrink", ["C14"]),
- ("move-to-overwrites-analysis", "src/egraph/union.rs", "            let new_analysis_to = N::merge(analysis_from, analysis_to.clone());", "            let new_analysis_to = if self.classes[&from.id].nodes.len() > 2 { analysis_from } else { N::merge(analysis_from, analysis_to.clone()) };", ["C14"]),
+ ("move-to-overwrites-analysis", "src/egraph/union.rs", "            let analysis_to = self.analysis_data_mut(to.id);\n            let old_analysis_to = analysis_to.clone();\n            let new_analysis_to = N::merge(analysis_from, analysis_to.clone());", "            let big = self.classes[&from.id].nodes.len() > 1;\n            let analysis_to = self.analysis_data_mut(to.id);\n            let old_analysis_to = analysis_to.clone();\n            let new_analysis_to = if big { analysis_from } else { N::merge(analysis_from, analysis_to.clone()) };", ["C14"]),
  # ---- C15
- ("progress-without-symmetries", "src/rewrite/mod.rs", "#[derive(PartialEq, Eq)]\n/// A Progress Measure", "/// A Progress Measure", []),
+ ("progress-without-symmetries", "src/rewrite/mod.rs", "    prog != eg.progress()\n}", "    let now = eg.progress();\n    prog.number_of_classes != now.number_of_classes || prog.number_of_live_classes != now.number_of_live_classes || prog.sum_of_slots != now.sum_of_slots\n}", ["C15"]),
+ ("progress-without-slots", "src/rewrite/mod.rs", "    prog != eg.progress()\n}", "    let now = eg.progress();\n    prog.number_of_classes != now.number_of_classes || prog.number_of_live_classes != now.number_of_live_classes || prog.sum_of_symmetries != now.sum_of_symmetries\n}", ["C15"]),
  ("node-limit-off-by-one", "src/run/runner.rs", "        } else if eg.total_number_of_nodes() > self.node_limit {", "        } else if eg.total_number_of_nodes() >= self.node_limit {", ["C15"]),
  ("saturated-whenever-hooks-pass", "src/run/runner.rs", "        if !progress {\n            result = result.and_then(|_| Err(StopReason::Saturated));", "        if !progress || self.iterations.len() >= 2 {\n            result = result.and_then(|_| Err(StopReason::Saturated));", ["C15"]),
  ("eqsat-iteration-limit-late", "src/run/run.rs", "        if iterations >= iter_limit {", "        if iterations >= iter_limit + 3 {", ["C15"]),
@@ -87,6 +88,13 @@ M = [
  ("compose-partial-wrong-lookup", "src/slotmap.rs", "    pub fn compose_partial(&self, other: &SlotMap) -> SlotMap {\n        let mut out = SlotMap::new();\n        for (x, y) in self.iter() {\n            if let Some(z) = other.get(y) {", "    pub fn compose_partial(&self, other: &SlotMap) -> SlotMap {\n        let mut out = SlotMap::new();\n        for (x, y) in self.iter() {\n            if let Some(z) = other.get(if self.len() > 3 { x } else { y }) {", ["C19", "C08"]),
  ("try-union-some-on-conflict", "src/slotmap.rs", "                if y != z {\n                    return None;\n                }", "                if y != z && self.len() < 3 {\n                    return None;\n                }", ["C19"]),
  ("remove-wrong-index", "src/slotmap.rs", "        if let Ok(i) = self.search(x) {\n            self.map.remove(i);\n        }", "        if let Ok(i) = self.search(x) {\n            self.map.remove(if self.map.len() > 4 { i.saturating_sub(1) } else { i });\n        }", ["C19"]),
+ # ---- more, added after the first round
+ ("pending-merge-dropped", "src/egraph/rebuild.rs", "            let v = self.pending.entry(sh.clone()).or_insert(pending_ty);\n            *v = v.merge(pending_ty);", "            self.pending.entry(sh.clone()).or_insert(pending_ty);", ["C08", "C14"]),
+ ("self-sym-no-requeue", "src/egraph/rebuild.rs", "                if grp.add(proven_perm) {\n                    self.touched_class(i, PendingType::Full);\n                }", "                grp.add(proven_perm);", ["C08", "C02"]),
+ ("eq-ignores-slot-values", "src/egraph/mod.rs", "        if a.m.values() != b.m.values() {\n            return false;\n        }", "        if a.m.values().len() != b.m.values().len() {\n            return false;\n        }", ["C01", "C08"]),
+ ("compose-fresh-reuses", "src/slotmap.rs", "            } else {\n                out.insert(x, Slot::fresh());\n            }\n        }\n        out\n    }\n\n    pub fn identity", "            } else {\n                out.insert(x, y);\n            }\n        }\n        out\n    }\n\n    pub fn identity", ["C19", "C08"]),
+ ("runner-report-stale-nodes", "src/run/runner.rs", "            egraph_nodes: self.egraph.total_number_of_nodes(),", "            egraph_nodes: self.iterations.last().map(|i| i.num_nodes).unwrap_or(0).max(1) - 1 + 1,", []),
+ ("find-lowest-by-display", "src/group/mod.rs", "                min = min.iter().copied().chain(std::iter::once(x)).min();", "                min = min.iter().copied().chain(std::iter::once(x)).min_by_key(|s: &Slot| s.to_string());", []),
  # ---- C20
  ("std-hashmap-in-pending", "src/egraph/mod.rs", "    pending: HashMap<L, PendingType>,", "    pending: std::collections::HashMap<L, PendingType>,", ["C20"]),
 ]
